@@ -17,7 +17,7 @@ import (
 var blockMutations = []string{
 	"chainid", "height", "time+1ns", "time-1ns", "time-prev", "lastblockid", "lastcommithash", "datahash",
 	"valhash", "nextvalhash", "conshash", "apphash", "resultshash", "evidencehash", "proposer-unknown",
-	"proposer-other", "version", "commit-badsig", "commit-dropquorum", "commit-round",
+	"proposer-other", "version", "commit-badsig", "commit-dropquorum", "commit-round", "commit-forged-nil",
 }
 
 var validMutations = map[string]bool{"proposer-other": true}
@@ -83,7 +83,7 @@ func mutateBlock(b *types.Block, mut string, st sm.State, salt int) bool {
 		}
 	case "version":
 		b.Version.Block++
-	case "commit-badsig", "commit-dropquorum", "commit-round":
+	case "commit-badsig", "commit-dropquorum", "commit-round", "commit-forged-nil":
 		if first || b.LastCommit == nil || len(b.LastCommit.Signatures) == 0 {
 			return false
 		}
@@ -125,6 +125,38 @@ func mutateBlock(b *types.Block, mut string, st sm.State, salt int) bool {
 			}
 		case "commit-round":
 			round++
+		case "commit-forged-nil":
+			// a made-up "validator k precommitted nil" entry with a garbage signature: replaces
+			// an absent or nil entry, or a for-block entry that the quorum can spare
+			total := st.LastValidators.TotalVotingPower()
+			var have int64
+			for i, s := range sigs {
+				if s.ForBlock() {
+					have += st.LastValidators.Validators[i].VotingPower
+				}
+			}
+			k := -1
+			for i, s := range sigs {
+				if !s.ForBlock() {
+					k = i
+					break
+				}
+			}
+			if k < 0 {
+				for i := range sigs {
+					if (have-st.LastValidators.Validators[i].VotingPower)*3 > total*2 {
+						k = i
+						break
+					}
+				}
+			}
+			if k < 0 {
+				return false
+			}
+			v := st.LastValidators.Validators[k]
+			sigs[k] = types.CommitSig{BlockIDFlag: types.BlockIDFlagNil, ValidatorAddress: v.Address,
+				Timestamp: b.Time.Add(-time.Millisecond), Signature: tmhash.Sum([]byte("forged"))[:32]}
+			sigs[k].Signature = append(sigs[k].Signature, sigs[k].Signature...)
 		}
 		b.LastCommit = types.NewCommit(b.LastCommit.Height, round, b.LastCommit.BlockID, sigs)
 		b.LastCommitHash = nil
